@@ -129,7 +129,69 @@ def t_drop_docstring(func):
     return False
 
 
+def t_return_extract(func):
+    '''return <expr>  ->  result_tw = <expr>; return result_tw   (every
+    return of the function whose value is not a bare name / constant).'''
+    done = False
+
+    def rewrite(body):
+        nonlocal done
+        out = []
+        for stmt in body:
+            for fld in ('body', 'orelse', 'finalbody'):
+                sub = getattr(stmt, fld, None)
+                if isinstance(sub, list) and not isinstance(
+                        stmt, (ast.FunctionDef, ast.AsyncFunctionDef,
+                               ast.ClassDef)):
+                    setattr(stmt, fld, rewrite(sub))
+            for hdl in getattr(stmt, 'handlers', []) or []:
+                hdl.body = rewrite(hdl.body)
+            if isinstance(stmt, ast.Return) and stmt.value is not None and \
+                    not isinstance(stmt.value, (ast.Name, ast.Constant)) \
+                    and not any(isinstance(n, (ast.Yield, ast.YieldFrom,
+                                               ast.Await))
+                                for n in ast.walk(stmt.value)):
+                out.append(ast.Assign(
+                    targets=[ast.Name(id='result_tw', ctx=ast.Store())],
+                    value=stmt.value, lineno=stmt.lineno))
+                out.append(ast.Return(value=ast.Name(id='result_tw',
+                                                     ctx=ast.Load())))
+                done = True
+            else:
+                out.append(stmt)
+        return out
+    func.body = rewrite(func.body)
+    return done
+
+
+def t_demorgan(func):
+    '''not (a and b) -> (not a) or (not b);  not (a or b) -> (not a) and
+    (not b).'''
+    done = False
+
+    class DeM(ast.NodeTransformer):
+        def visit_FunctionDef(self, node):
+            return node if node is not func else self.generic_visit(node)
+
+        def visit_UnaryOp(self, node):
+            nonlocal done
+            self.generic_visit(node)
+            if isinstance(node.op, ast.Not) and isinstance(
+                    node.operand, ast.BoolOp):
+                done = True
+                flip = ast.Or() if isinstance(node.operand.op, ast.And) \
+                    else ast.And()
+                return ast.BoolOp(op=flip, values=[
+                    ast.UnaryOp(op=ast.Not(), operand=v)
+                    for v in node.operand.values])
+            return node
+    DeM().visit(func)
+    return done
+
+
 TRANSFORMS = {
+    'return-extract': t_return_extract,
+    'de-morgan': t_demorgan,
     'rename-locals': t_rename_locals,
     'flip-equalities': t_flip_equalities,
     'flip-ifexp': t_flip_ifexp,
@@ -254,7 +316,17 @@ def main():
         pid = prop['id']
         if props and pid not in props:
             continue
-        for rel in prop['anchors']['files']:
+        rels = list(prop['anchors']['files'])
+        # ... plus every file the rules of the property consulted at the
+        # last run (evidence/<id>.json, coverage.files)
+        try:
+            evid = json.load(open(os.path.join(VERIF, 'evidence',
+                                               f'{pid}.json')))
+            rels += [r for r in evid['coverage'].get('files', {})
+                     if r not in rels]
+        except (OSError, ValueError, KeyError):
+            pass
+        for rel in rels:
             modname = rel[:-3].replace('/', '.')
             mod = prog.modules.get(modname)
             if mod is None:
